@@ -35,17 +35,18 @@ HeadPairs == { <<"sdc.x", "h", "sdc.x", "h">>, <<"sdc.x", "h", "SDC.X", "H">>, <
                <<"sdc.x", "None", "sdc.x", "h">> }
 SameHeadPair == { <<"sdc.x", "h", "sdc.x", "h">> }
 
-Pairs(hp, alpha, n, rules) ==
+Pairs(hp, alpha, n, rules) == TLCEval(
   {c \in {[a |-> Uri(h[1], h[2], p), b |-> Uri(h[3], h[4], q), rule |-> r] :
             h \in hp, p \in Paths(alpha, n), q \in Paths(alpha, n), r \in rules} :
-     WellFormed(c.a) /\ WellFormed(c.b)}
+     WellFormed(c.a) /\ WellFormed(c.b)})
 AllHeadPairs == {<<x[1], x[2], y[1], y[2]>> : x \in Heads, y \in Heads}
 
-ScopeCases == IF Which # "scope" THEN {} ELSE
+\* TLCEval: build the set explicitly once (a lazily represented union makes the enumeration quadratic)
+ScopeCases == IF Which # "scope" THEN {} ELSE TLCEval(
               Pairs(HeadPairs, DeepAlpha, DeepMax, {"rfc3986"})
               \cup Pairs(SameHeadPair, WideAlpha, WideMax, {"rfc3986", "absent"})
               \cup Pairs(AllHeadPairs, DeepAlpha, HeadMax, Rules)
-              \cup Pairs(HeadPairs, DeepAlpha, StrMax, {"strcmp0"})
+              \cup Pairs(HeadPairs, DeepAlpha, StrMax, {"strcmp0"}))
 
 ScopeInit == case \in ScopeCases
 Stay == UNCHANGED case
@@ -92,7 +93,7 @@ FilterDomRfc == [types : {NoList}, scopes : {Opt(TRUE, l) : l \in Lists(FilterUr
 ServiceDom == [types : Lists(TypeTokens, ListMax), scopes : Lists(FilterUris, ScopeListMax), noScopesElem : BOOLEAN]
 Services == {s \in ServiceDom : s.noScopesElem => s.scopes = <<>>}
 
-FilterCases == IF Which # "filter" THEN {} ELSE [srv : Services, flt : FilterDom \cup FilterDomRfc]
+FilterCases == IF Which # "filter" THEN {} ELSE TLCEval([srv : Services, flt : FilterDom \cup FilterDomRfc])
 FilterInit == case \in FilterCases
 FilterSpec == FilterInit /\ [][Stay]_case
 
@@ -112,14 +113,14 @@ SelServices == { [types |-> <<"n1:A">>, scopes |-> <<FU2>>, noScopesElem |-> FAL
                  [types |-> <<>>, scopes |-> <<FU1>>, noScopesElem |-> FALSE] }
 SelFilters == [types : OptLists(TypeTokens, 1) \cup {Opt(TRUE, <<"n1:A", "n1:B">>)},
                scopes : OptLists(FilterUris, 1) \cup {Opt(TRUE, <<FU1, FU2>>)}, rule : Rules]
-SelectCases == IF Which # "select" THEN {} ELSE [srvs : Lists(SelServices, 3), flt : SelFilters]
+SelectCases == IF Which # "select" THEN {} ELSE TLCEval([srvs : Lists(SelServices, 3), flt : SelFilters])
 SelectInit == case \in SelectCases
 SelectSpec == SelectInit /\ [][Stay]_case
 LawSelect == /\ Select(case.srvs, case.flt) \subseteq DOMAIN case.srvs
              /\ \A i \in DOMAIN case.srvs : (i \in Select(case.srvs, case.flt)) = MatchesFilter2(case.srvs[i], case.flt)
 
 \* ---- emission ---------------------------------------------------------------------
-Cases == CASE Which = "scope" -> ScopeCases [] Which = "filter" -> FilterCases [] Which = "select" -> SelectCases
+Cases == (CASE Which = "scope" -> ScopeCases [] Which = "filter" -> FilterCases [] Which = "select" -> SelectCases)
 Tables == [lower |-> LowerOf, dec |-> DecOf]
 \* written once when TLC evaluates the assumption (before the behaviours are explored)
 ASSUME JsonSerialize(IOEnv.OUT_FILE, [cases |-> SetToSeq(Cases), tables |-> Tables])
